@@ -195,46 +195,61 @@ deriving Repr
     peer's shutdown that is "no byte left" -/
 def Conn.isClosed (c : Conn) : Bool := c.closed || c.inp.isEmpty
 
+/-- one frame as `receive()` reads it, once `closed()` was false at the top of the loop -/
+inductive Frame where
+  /-- end of stream inside the frame, or a rejected length: the connection is closed -/
+  | close
+  /-- a masking loop left its buffer (never: `C11.receive_in_bounds`) -/
+  | fault
+  /-- `fin opcode buffer rest`: the unmasked payload and the bytes after the frame -/
+  | ok (fin : Bool) (opcode : Nat) (buffer : List UInt8) (rest : List UInt8)
+deriving Repr, DecidableEq
+
+/-- `_socket >> b0 >> mlen; if (closed()) return …;` header, payload, unmasking -/
+def readFrame (inp : List UInt8) : Frame :=
+  match inp with
+  | [] => .close
+  | [_] => .close                       -- `mlen` not read: socket error, `closed()` is true
+  | b0 :: mlen :: rest =>
+    if rest.isEmpty then .close         -- second `closed()`: nothing follows the two bytes
+    else match parseExt b0 mlen rest with
+    | .close => .close
+    | .ok fin opcode masked len mask rest =>
+      let n := len.toNat
+      if rest.length < n then .close    -- the stream ends inside the payload
+      else
+        let payload := rest.take n
+        match (if masked then maskBuffer mask payload zeroSlack else some payload) with
+        | none => .fault
+        | some buffer => .ok fin opcode buffer (rest.drop n)
+
 /-- the `while (!haveMsg)` loop of `receive()`; `fuel` bounds the number of frames (each consumes at
     least two bytes).  Returns the message and the connection. -/
 def recvLoop : Nat → Conn → List UInt8 → Bool → List UInt8 × Conn
   | 0, c, msg, _ => (msg, c)
   | fuel + 1, c, msg, partialMsg =>
     if c.isClosed then (msg, { c with closed := true })
-    else match c.inp with
-    | [] => (msg, { c with closed := true })
-    | [_] => (msg, { c with closed := true, inp := [] })      -- `mlen` not read: socket error, `closed()` true
-    | b0 :: mlen :: rest =>
-      if rest.isEmpty then (msg, { c with closed := true, inp := [] })   -- second `closed()`: nothing follows
-      else match parseExt b0 mlen rest with
-      | .close => (msg, { c with closed := true, inp := [] })
-      | .ok fin opcode masked len mask rest =>
-        let n := len.toNat
-        if rest.length < n then (msg, { c with closed := true, inp := [] })   -- stream ended inside the payload
-        else
-          let payload := rest.take n
-          let rest := rest.drop n
-          let buffer := if masked then maskBuffer mask payload zeroSlack else some payload
-          match buffer with
-          | none => (msg, { c with closed := true, fault := true })
-          | some buffer =>
-            let c := { c with inp := rest }
-            if opcode ≤ 2 then
-              let msg := msg ++ buffer
-              let partialMsg := !fin
-              if fin then (msg, c) else recvLoop fuel c msg partialMsg
-            else if opcode = 8 then
-              if buffer.length ≥ 2 then
-                let code := (buffer.getD 0 0).toNat <<< 8 ||| (buffer.getD 1 0).toNat
-                (buffer.drop 2, { c with closed := true, code := code })
-              else (msg, { c with closed := true })
-            else
-              let c := if opcode = 9 then
-                  match sendFrame c.isClient c.rng 10 buffer with
-                  | some (bytes, rng) => { c with out := c.out ++ bytes, rng := rng }
-                  | none => { c with fault := true }
-                else c
-              if fin && (opcode < 8 || !partialMsg) then (msg, c) else recvLoop fuel c msg partialMsg
+    else match readFrame c.inp with
+    | .close => (msg, { c with closed := true, inp := [] })
+    | .fault => (msg, { c with closed := true, fault := true })
+    | .ok fin opcode buffer rest =>
+      let c := { c with inp := rest }
+      if opcode ≤ 2 then
+        -- continuation, text, binary: `msg.append(buffer); partial = !fin;`
+        if fin then (msg ++ buffer, c) else recvLoop fuel c (msg ++ buffer) true
+      else if opcode = 8 then
+        if buffer.length ≥ 2 then
+          let code := (buffer.getD 0 0).toNat <<< 8 ||| (buffer.getD 1 0).toNat
+          (buffer.drop 2, { c with closed := true, code := code })
+        else (msg, { c with closed := true })
+      else
+        let c := if opcode = 9 then
+            match sendFrame c.isClient c.rng 10 buffer with
+            | some (bytes, rng) => { c with out := c.out ++ bytes, rng := rng }
+            | none => { c with fault := true }
+          else c
+        -- `if (fin && (opcode < 8 || !partial)) haveMsg = true;`
+        if fin && (opcode < 8 || !partialMsg) then (msg, c) else recvLoop fuel c msg partialMsg
 
 /-- `receive()` -/
 def receive (c : Conn) : List UInt8 × Conn := recvLoop (c.inp.length + 1) c [] false
@@ -249,6 +264,14 @@ def receiveAll : Nat → Conn → List (List UInt8) → List (List UInt8) × Con
       receiveAll fuel c' (m :: acc)
 
 def run (c : Conn) : List (List UInt8) × Conn := receiveAll (c.inp.length + 1) c []
+
+/-- the frames a sender writes for `send(p, len, type)` called once per element -/
+def sendAll (isClient : Bool) : Rng → List (Nat × List UInt8) → List UInt8 → Option (List UInt8)
+  | _, [], acc => some acc
+  | rng, (t, p) :: rest, acc =>
+    match sendFrame isClient rng t p with
+    | some (bytes, rng') => sendAll isClient rng' rest (acc ++ bytes)
+    | none => none
 
 /-! ## server handshake -/
 
